@@ -57,6 +57,27 @@ THEOREMS = [
     'C17.normSq_isometry', 'C17.dv_isometry', 'C17.frame_equivariant',
     # ... and with the three box vectors (and their periodicity flags) listed in another order
     'C17.dvCell_swap01', 'C17.dvCell_swap12', 'C17.dvCell_reversed', 'C17.rows_reordered',
+    # round 6 — the checked source tie (Proofs/C17_Source.lean): every definition regenerated from the CURRENT source
+    # (Generated/DeformSource.lean) equals the hand model; a formula / operator / branch-order / argument edit breaks one of these
+    'C17.gen_strain_eq_model', 'C17.gen_rotation_eq_model', 'C17.gen_invariant1_eq_model', 'C17.gen_invariant2_eq_model',
+    'C17.gen_invariant3_eq_model', 'C17.gen_angularVelocitySq_eq_model', 'C17.gen_dG_eq_model', 'C17.gen_nyeOf_eq_model',
+    'C17.gen_lstsqRhsAxis_eq_model', 'C17.gen_magSq_eq_model', 'C17.gen_r1Init_eq_model', 'C17.gen_shortest_eq_model',
+    'C17.gen_cosTheta_eq_model', 'C17.gen_bestStep_eq_model', 'C17.gen_bestP_eq_model', 'C17.gen_dedupeStep_eq_model',
+    'C17.gen_pick_slipVector_eq_model', 'C17.gen_pick_strainInit_eq_model', 'C17.gen_pick_buildP_eq_model',
+    'C17.gen_pick_nyeTensor_eq_model', 'C17.gen_pick_ddFunction_eq_model', 'C17.gen_pickSystem_eq_model',
+    'C17.gen_slipStep_eq_model', 'C17.gen_displacementCall_eq_model', 'C17.gen_ddvector_eq_model',
+    'C17.gen_getters_eq_model', 'C17.gen_cleared_eq_model', 'C17.gen_thetaAccept_eq_model',
+    'C17.gen_eps_eq_leviCivita', 'C17.gen_nye_c_eq_einsum',
+    'C17.gen_pin_solveNye', 'C17.gen_pin_matchLoops', 'C17.gen_pin_solveG', 'C17.gen_pin_setP', 'C17.gen_pin_strainInit',
+    'C17.gen_pin_buildP', 'C17.gen_pin_slipCall', 'C17.gen_pin_ddSolve', 'C17.gen_pin_ddInit', 'C17.gen_pin_ddReference',
+    'C17.gen_pin_nyeTensorLoop', 'C17.gen_pin_nyeTensorPre', 'C17.gen_pin_disregistry', 'C17.gen_pin_ddFunctionBody',
+    # round 6 — whole entry points and refusals (exactly when), uniqueness, order / frame independence, end-to-end statements
+    'C17.displacementCall_accepts_iff', 'C17.displacementCall_refusal_is_value', 'C17.displacementCall_values',
+    'C17.displacementCall_is_imposed', 'C17.pickNeighbors_refuses_iff', 'C17.dispatchP_refuses_iff', 'C17.setTheta_accepts_iff',
+    'C17.disregistry_refuses_iff', 'C17.strain_rotation_unique', 'C17.nyeOfGrad_compatible', 'C17.nye_compatible',
+    'C17.nyeOf_is_leviCivita_contraction', 'C17.slipVector_perm', 'C17.solveNormal_perm', 'C17.nye_perm',
+    'C17.slipVectorCall_rigid', 'C17.DObj.api_differences', 'C17.SObj.api_constant_G', 'C17.SObj.api_homogeneous',
+    'C17.det_mul3', 'C17.invariant3_eq_det', 'C17.invariant1_frame', 'C17.invariant2_eq', 'C17.invariants_frame',
 ]
 PARTIAL = {
     'matchPQ_pairing': 'the conflict resolution of match_pq is proved for arbitrary lists (one q per p, the winner is the q closest '
@@ -815,6 +836,37 @@ def _corr_slip_one(ctx, rng, ref, caseseed, it0, it, dyadic):
          decided=dec_disp)
     _cmp(ctx, 'displacement:initial', "am.displacement(box_reference='initial')",
          _guard(lambda: am.displacement(s0, s1, box_reference='initial')), out, exact, info, decided=dec_disp)
+    if it % 3 != 0:
+        # displacement() as a whole (model `displacementCall`): every kind of box_reference, systems with different cells
+        # (pbc flags and box vectors: system_1 re-described with b' = b + a when that keeps it a valid box) and atom counts
+        p3 = list(sc['pbc'])
+        p3[rng.randrange(3)] ^= True
+        V3_ = np.array(s0.box.vects)
+        if rng.random() < 0.5:
+            V3_[1] = V3_[1] + V3_[0]
+        s1c = _guard(lambda: am.System(atoms=am.Atoms(atype=1, pos=s1.atoms.pos.copy()), box=am.Box(vects=V3_, origin=s0.box.origin),
+                                       pbc=tuple(bool(x) for x in p3)))
+        if not isinstance(s1c, _Raised):
+            short_ = am.System(atoms=am.Atoms(atype=1, pos=s1c.atoms.pos[:-1].copy()), box=s1c.box, pbc=s1c.pbc)
+            p0t, p1t = cm.frs(s0.atoms.pos), cm.frs(s1c.atoms.pos)
+            for ref_, tok_ in (('final', 'final'), ('initial', 'initial'), (None, 'none'), (rng.choice(['Final', 'both', '', 0, False, 'none', 1]), 'other')):
+                for sB, nB, pB in ((s1c, n, p1t), (short_, n - 1, cm.frs(short_.atoms.pos))):
+                    if sB is short_ and rng.random() < 0.5:
+                        continue
+                    o_ = ctx.driver.ask(f'dispcall {tok_} {_cell(s0)} {_cell(s1c)} {n} {p0t} {nB} {pB}')
+                    r_ = _guard(lambda: am.displacement(s0, sB, box_reference=ref_))
+                    ctx.stats.case('dispcall', canon + (repr(ref_), nB, tuple(p3)))
+                    inf_ = dict(info, box_reference=repr(ref_), natoms1=nB, pbc1=p3, box1=V3_.tolist())
+                    if isinstance(r_, _Raised) or o_.startswith('err:'):
+                        cls_ = r_.text.split(':')[0] if isinstance(r_, _Raised) else 'values'
+                        want_ = {'err:value': 'ValueError', 'err:assert': 'AssertionError'}.get(o_, 'values')
+                        if cls_ != want_:
+                            ctx.disagree('dispcall:refusal', f'displacement(box_reference={ref_!r}, {nB} vs {n} atoms): implementation '
+                                         f'gives {r_.text if isinstance(r_, _Raised) else "values"}, the model {want_}', inf_)
+                        continue
+                    cellB = (V3_, p3) if ref_ == 'final' else (V_, pb_)
+                    dq_ = None if ref_ is None else _mi(cellB[0], cellB[1], s1c.atoms.pos - s0.atoms.pos, np)[2]
+                    _cmp(ctx, 'dispcall', f'am.displacement(box_reference={ref_!r}) with two different cells', r_, o_, exact, inf_, decided=dq_)
     if it % 3 == 1:
         # the two systems with DIFFERENT periodicity flags: 'final' takes system_1's, 'initial' system_0's
         p2 = list(sc['pbc'])
@@ -3842,6 +3894,829 @@ def replay(ctx, payload):
     if ctx.disagreements and not ctx.violations:
         d = ctx.disagreements[0]
         ctx.violate(d.key, d.what, d.replay)
+
+
+# ----------------------------------------------------------------------------------------
+# translator: the straight-line formulas, comparison operators, branch chains and call arguments of the anchored
+# sources -> lean/Atomman/Generated/DeformSource.lean  (checked against the hand model in Proofs/C17_Source.lean)
+# ----------------------------------------------------------------------------------------
+GENERATED = ['DeformSource']
+_XYZ = 'xyz'
+
+
+def _split_top(s):
+    out, d, cur = [], 0, ''
+    for ch in s:
+        if ch in '([{':
+            d += 1
+        elif ch in ')]}':
+            d -= 1
+        if ch == ',' and d == 0:
+            out.append(cur)
+            cur = ''
+        else:
+            cur += ch
+    if cur.strip():
+        out.append(cur)
+    return out
+
+
+def _decython(src, what):
+    """Cython -> Python: `cimport` lines dropped, `cdef f(<typed args>)` -> `def f(<names>)`, `cdef <type> x = e` -> `x = e`,
+    bare `cdef` declarations dropped.  Everything else (all expressions, tests, loops) is left to `ast`."""
+    import ast
+    import re
+    from ..translate import TranslationError
+    lines = src.split('\n')
+    out = []
+    k = 0
+    while k < len(lines):
+        ln = lines[k]
+        st = ln.strip()
+        if re.match(r'(cimport\b|from\s+\S+\s+cimport\b)', st):
+            out.append('')
+            k += 1
+            continue
+        m = re.match(r'^(\s*)cp?def\s+(?:inline\s+)?(\w+)\s*\(', ln)
+        if m:
+            text = ln[m.end():]
+            d, buf, kk, rest = 1, '', k, None
+            while rest is None:
+                for pos, ch in enumerate(text):
+                    if ch in '([':
+                        d += 1
+                    elif ch in ')]':
+                        d -= 1
+                    if d == 0:
+                        buf += text[:pos]
+                        rest = text[pos + 1:]
+                        break
+                if rest is None:
+                    buf += text + ' '
+                    kk += 1
+                    if kk >= len(lines):
+                        raise TranslationError(f'{what}: unterminated cdef header at line {k + 1}')
+                    text = lines[kk]
+            names = []
+            for a in _split_top(buf):
+                mm = re.search(r'(\w+)\s*(=.*)?$', a.strip())
+                if not mm:
+                    raise TranslationError(f'{what}: cannot read argument {a!r}')
+                names.append(mm.group(1) + (mm.group(2) or ''))
+            out.append(f'{m.group(1)}def {m.group(2)}({", ".join(names)}){rest}')
+            out.extend([''] * (kk - k))
+            k = kk + 1
+            continue
+        m = re.match(r'^(\s+)cdef\s+(.*)$', ln)
+        if m:
+            body = m.group(2)
+            parts, d = None, 0
+            for pos, ch in enumerate(body):
+                if ch in '([':
+                    d += 1
+                elif ch in ')]':
+                    d -= 1
+                elif ch == '=' and d == 0 and body[pos:pos + 2] != '==':
+                    parts = (body[:pos], body[pos + 1:])
+                    break
+            if parts:
+                nm = re.search(r'(\w+)\s*$', parts[0])
+                if not nm:
+                    raise TranslationError(f'{what}: cannot read declaration {body!r}')
+                out.append(f'{m.group(1)}{nm.group(1)} ={parts[1]}')
+            else:
+                out.append('')
+            k += 1
+            continue
+        out.append(ln)
+        k += 1
+    try:
+        return ast.parse('\n'.join(out))
+    except SyntaxError as e:
+        raise TranslationError(f'{what}: not parseable after removing the C declarations: {e}')
+
+
+class _Tr:
+    """Python expression / test (ast) -> Lean term over `K`; `atom(node)` maps names, subscripts and calls."""
+
+    def __init__(self, atom):
+        self.atom = atom
+
+    def e(self, n):
+        import ast
+        from ..translate import TranslationError, lit
+        r = self.atom(n, self)
+        if r is not None:
+            return r
+        if isinstance(n, ast.Constant) and isinstance(n.value, (int, float)) and not isinstance(n.value, bool):
+            return lit(Fraction(n.value))
+        if isinstance(n, ast.UnaryOp) and isinstance(n.op, ast.USub):
+            return f'(-{self.e(n.operand)})'
+        if isinstance(n, ast.BinOp):
+            a, b = self.e(n.left), self.e(n.right)
+            for cls, sym in ((ast.Add, '+'), (ast.Sub, '-'), (ast.Mult, '*'), (ast.Div, '/')):
+                if isinstance(n.op, cls):
+                    return f'({a} {sym} {b})'
+            if isinstance(n.op, ast.Pow) and isinstance(n.right, ast.Constant) and n.right.value == 2:
+                return f'({a} * {a})'
+        raise TranslationError(f'expression outside the translated subset: {ast.unparse(n)}')
+
+    def test(self, n):
+        import ast
+        from ..translate import TranslationError
+        if isinstance(n, ast.BoolOp) and isinstance(n.op, ast.And):
+            return '(' + ' ∧ '.join(self.test(v) for v in n.values) + ')'
+        if isinstance(n, ast.Compare) and len(n.ops) == 1:
+            a, b = self.e(n.left), self.e(n.comparators[0])
+            for cls, sym in ((ast.Lt, '<'), (ast.Gt, '>'), (ast.LtE, '≤'), (ast.GtE, '≥'), (ast.Eq, '='), (ast.NotEq, '≠')):
+                if isinstance(n.ops[0], cls):
+                    return f'{a} {sym} {b}'
+        raise TranslationError(f'test outside the translated subset: {ast.unparse(n)}')
+
+
+def _q(s):
+    return '"' + s.replace('\\', '\\\\').replace('"', '\\"') + '"'
+
+
+def translate():
+    import warnings
+    with warnings.catch_warnings():
+        warnings.simplefilter('ignore')          # escape sequences in the docstrings of the sources
+        return _translate()
+
+
+def _translate():
+    import ast
+    from ..translate import TranslationError, strip_doc
+
+    def fail(msg):
+        raise TranslationError(msg)
+
+    def need(cond, msg):
+        if not cond:
+            raise TranslationError(msg)
+
+    def func(tree, name, cls=None):
+        scope = tree.body
+        if cls is not None:
+            cs = [n for n in tree.body if isinstance(n, ast.ClassDef) and n.name == cls]
+            need(len(cs) == 1, f'class {cls} not found once')
+            scope = cs[0].body
+        fs = [n for n in scope if isinstance(n, ast.FunctionDef) and n.name == name]
+        if cls is not None and len(fs) > 1:           # property getter + setter: the getter is the @property one
+            fs = [f for f in fs if any(ast.unparse(d) == 'property' for d in f.decorator_list)]
+        need(len(fs) == 1, f'function {name} not found once ({len(fs)})')
+        return fs[0]
+
+    def body(f):
+        return strip_doc(f.body)
+
+    def is_range(n, arg=None):
+        ok = isinstance(n, ast.Call) and isinstance(n.func, ast.Name) and n.func.id == 'range' and len(n.args) == 1
+        return ok and (arg is None or ast.unparse(n.args[0]) == arg)
+
+    def only(stmts, cls, what):
+        hits = [s for s in stmts if isinstance(s, cls)]
+        need(len(hits) == 1, f'{what}: expected exactly one {cls.__name__}, found {len(hits)}')
+        return hits[0]
+
+    def idx(sub):
+        """indices of a subscript as a list of nodes"""
+        s = sub.slice
+        return list(s.elts) if isinstance(s, ast.Tuple) else [s]
+
+    def const_idx(n):
+        need(isinstance(n, ast.Constant) and n.value in (0, 1, 2), f'index is not 0/1/2: {ast.unparse(n)}')
+        return n.value
+
+    def base(sub):
+        need(isinstance(sub, ast.Subscript) and isinstance(sub.value, ast.Name), f'not a plain subscript: {ast.unparse(sub)}')
+        return sub.value.id
+
+    out = ['/- GENERATED by harness/props/c17.py (translate) from atomman/defect/Strain.pyx, slip_vector.pyx, nye_tensor.py,',
+           '   DifferentialDisplacement.py, differential_displacement.py, disregistry.py and core/displacement.py — do not edit.',
+           '   Every definition is the expression / test / branch chain that stands in the source NOW; Proofs/C17_Source.lean',
+           '   proves each equal to the hand model of Atomman/C17.lean (`gen_…_eq_model`) or to the pinned literal. -/',
+           'import Atomman.C17',
+           'namespace Atomman.C17.Gen',
+           'open Atomman Atomman.C17',
+           'section',
+           'variable {K : Type} [Add K] [Sub K] [Mul K] [Div K] [Neg K] [Zero K] [One K] [IntCast K] [NatCast K]',
+           '  [LT K] [DecidableLT K] [LE K] [DecidableLE K] [DecidableEq K]',
+           '']
+    pins = []                                   # (name, doc, list of strings)
+
+    # ------------------------------------------------------------------ Strain.pyx: tensor formulas
+    st = _decython(cm.source('atomman/defect/Strain.pyx'), 'Strain.pyx')
+
+    def sym_entry(fname, lean):
+        f = func(st, fname)
+        stm = body(f)
+        li = only(stm, ast.For, fname)
+        need(is_range(li.iter), f'{fname}: outer loop is not a range')
+        i = li.target.id
+        lj = only(li.body, ast.For, fname)
+        need(is_range(lj.iter, '3') and len(li.body) == 1, f'{fname}: second loop is not range(3)')
+        lk = only(lj.body, ast.For, fname)
+        need(is_range(lk.iter, '3') and len(lj.body) == 1 and len(lk.body) == 1, f'{fname}: third loop is not range(3)')
+        j, k = lj.target.id, lk.target.id
+        a = lk.body[0]
+        need(isinstance(a, ast.Assign) and [ast.unparse(x) for x in idx(a.targets[0])] == [i, j, k],
+             f'{fname}: the entry [i,j,k] is not what is assigned')
+        # names that stand for np.identity(3)
+        ident = set()
+        for s in stm:
+            if isinstance(s, ast.Assign) and isinstance(s.targets[0], ast.Name):
+                v = s.value
+                if ast.unparse(v) == 'np.identity(3)' or (isinstance(v, ast.Name) and v.id in ident):
+                    ident.add(s.targets[0].id)
+        garg = f.args.args[0].arg
+        ren = {j: 'j', k: 'k'}
+
+        def atom(n, tr):
+            if isinstance(n, ast.Subscript):
+                b, ix = base(n), [ast.unparse(x) for x in idx(n)]
+                if b in ident and len(ix) == 2 and all(x in ren for x in ix):
+                    return f'(I {ren[ix[0]]} {ren[ix[1]]})'
+                if b == garg and len(ix) == 3 and ix[0] == i and all(x in ren for x in ix[1:]):
+                    return f'(G {ren[ix[1]]} {ren[ix[2]]})'
+                fail(f'{fname}: unexpected operand {ast.unparse(n)}')
+            return None
+        ex = _Tr(atom).e(a.value)
+        out.append(f'/-- `{fname}`: `{ast.unparse(a)}` -/')
+        out.append(f'def {lean}Entry (I G : Nat → Nat → K) (j k : Nat) : K := {ex}')
+        out.append(f'def {lean} (G : M3 K) : M3 K := matOf fun j k => {lean}Entry (ent (M3.one : M3 K)) (ent G) j k')
+        out.append('')
+
+    sym_entry('strain_c', 'strain')
+    sym_entry('rotation_c', 'rotation')
+
+    def per_atom_scalar(fname, lean, unwrap=None):
+        f = func(st, fname)
+        li = only(body(f), ast.For, fname)
+        need(is_range(li.iter) and len(li.body) == 1 and isinstance(li.body[0], ast.Assign), f'{fname}: loop shape')
+        i = li.target.id
+        a = li.body[0]
+        need([ast.unparse(x) for x in idx(a.targets[0])] == [i], f'{fname}: target')
+        arg = f.args.args[0].arg
+        v = a.value
+        if unwrap is not None:
+            need(isinstance(v, ast.Call) and ast.unparse(v.func) == unwrap and len(v.args) == 1, f'{fname}: not {unwrap}(...)')
+            v = v.args[0]
+
+        def atom(n, tr):
+            if isinstance(n, ast.Subscript):
+                ix = idx(n)
+                need(base(n) == arg and len(ix) == 3 and ast.unparse(ix[0]) == i, f'{fname}: operand {ast.unparse(n)}')
+                return f's.r{const_idx(ix[1])}.{_XYZ[const_idx(ix[2])]}'
+            return None
+        out.append(f'/-- `{fname}`: `{ast.unparse(a)[:150]}` -/')
+        out.append(f'def {lean} (s : M3 K) : K := {_Tr(atom).e(v)}')
+        out.append('')
+
+    per_atom_scalar('invariant1_c', 'invariant1')
+    per_atom_scalar('invariant2_c', 'invariant2')
+    per_atom_scalar('invariant3_c', 'invariant3')
+    per_atom_scalar('angularvelocity_c', 'angularVelocitySq', unwrap='sqrt')
+
+    # dG_c
+    f = func(st, 'dG_c')
+    iarg = f.args.args[-1].arg
+    lj = only(body(f), ast.For, 'dG_c')
+    lx = only(lj.body, ast.For, 'dG_c')
+    ly = only(lx.body, ast.For, 'dG_c')
+    need(is_range(lx.iter, '3') and is_range(ly.iter, '3') and len(ly.body) == 1, 'dG_c: loops')
+    jn, xn, yn = lj.target.id, lx.target.id, ly.target.id
+    a = ly.body[0]
+    need(isinstance(a, ast.Assign) and [ast.unparse(t) for t in idx(a.targets[0])] == [jn, xn, yn], 'dG_c: target')
+    garg, narg = f.args.args[0].arg, f.args.args[1].arg
+
+    def atom_dg(n, tr):
+        if isinstance(n, ast.Subscript):
+            ix = idx(n)
+            need(base(n) == garg and len(ix) == 3 and [ast.unparse(t) for t in ix[1:]] == [xn, yn], f'dG_c: operand {ast.unparse(n)}')
+            who = ast.unparse(ix[0])
+            if who == iarg:
+                return '(Gi x y)'
+            if who == f'{narg}[{iarg}, {jn} + 1]':
+                return '(Gn x y)'
+            fail(f'dG_c: operand {ast.unparse(n)}')
+        return None
+    out.append(f'/-- `dG_c`: `{ast.unparse(a)}` (`Gn` = the neighbour\'s tensor, `Gi` = the atom\'s own) -/')
+    out.append(f'def dGEntry (Gn Gi : Nat → Nat → K) (x y : Nat) : K := {_Tr(atom_dg).e(a.value)}')
+    out.append('def dG (Gn Gi : M3 K) : M3 K := matOf fun x y => dGEntry (ent Gn) (ent Gi) x y')
+    out.append('')
+
+    # nye_c
+    f = func(st, 'nye_c')
+    gname, nname, iname = [a.arg for a in f.args.args]
+    ent = {}
+    for s in body(f):
+        need(isinstance(s, ast.Assign) and base(s.targets[0]) == nname, f'nye_c: statement {ast.unparse(s)}')
+        ix = idx(s.targets[0])
+        need(len(ix) == 3 and ast.unparse(ix[0]) == iname, 'nye_c: target')
+
+        def atom_ny(n, tr):
+            if isinstance(n, ast.Subscript):
+                need(base(n) == gname and len(idx(n)) == 3, f'nye_c: operand {ast.unparse(n)}')
+                return '(g ' + ' '.join(str(const_idx(t)) for t in idx(n)) + ')'
+            return None
+        key = (const_idx(ix[1]), const_idx(ix[2]))
+        need(key not in ent, 'nye_c: entry assigned twice')
+        ent[key] = _Tr(atom_ny).e(s.value)
+    need(len(ent) == 9, 'nye_c: not all nine entries assigned')
+    out.append('/-- `nye_c`: the nine entries from `gradG[x,y,z]`. -/')
+    out.append('def nyeOfGrad (g : Nat → Nat → Nat → K) : M3 K :=\n  ⟨' + ',\n   '.join(
+        '⟨' + ', '.join(ent[(r, c)] for c in range(3)) + '⟩' for r in range(3)) + '⟩')
+    out.append('')
+
+    # solve_nye: which least-squares problems, and how gradG is filled from their solutions
+    f = func(st, 'solve_nye', 'Strain')
+    li = [s for s in body(f) if isinstance(s, ast.For)][-1]
+    iname = li.target.id
+    lx = only(li.body, ast.For, 'solve_nye')
+    need(is_range(lx.iter, '3'), 'solve_nye: x loop')
+    xn = lx.target.id
+    a0 = lx.body[0]
+    need(isinstance(a0, ast.Assign), 'solve_nye: lstsq statement')
+    call = a0.value
+    need(isinstance(call, ast.Subscript) and ast.unparse(call.slice) == '0' and isinstance(call.value, ast.Call)
+         and ast.unparse(call.value.func) == 'np.linalg.lstsq', 'solve_nye: not lstsq(...)[0]')
+    la, lb = call.value.args[0], call.value.args[1]
+    need(isinstance(lb, ast.Subscript) and len(idx(lb)) == 3, 'solve_nye: right-hand side')
+    axis = [k for k, t in enumerate(idx(lb)) if ast.unparse(t) == xn]
+    need(len(axis) == 1, 'solve_nye: right-hand side axis')
+    ly = only(lx.body, ast.For, 'solve_nye')
+    lz = only(ly.body, ast.For, 'solve_nye')
+    a1 = lz.body[0]
+    need(isinstance(a1, ast.Assign) and len(lz.body) == 1, 'solve_nye: gradG statement')
+    tix = [ast.unparse(t) for t in idx(a1.targets[0])]
+    vix = [ast.unparse(t) for t in idx(a1.value)]
+    need(tix == [xn, ly.target.id, lz.target.id] and set(vix) <= {ly.target.id, lz.target.id} and len(vix) == 2,
+         'solve_nye: gradG indices')
+    ren = {ly.target.id: 'y', lz.target.id: 'z'}
+    out.append(f'/-- `solve_nye`: `{ast.unparse(a0)}`; `{ast.unparse(a1)}` (`gG x` = the solution for component `x`) -/')
+    out.append(f'def gradOf (gG : Nat → M3 K) (x y z : Nat) : K := ent (gG x) {ren[vix[0]]} {ren[vix[1]]}')
+    out.append(f'def lstsqRhsAxis : Nat := {axis[0]}')
+    out.append('def nyeOf (g : M3 K × M3 K × M3 K) : M3 K :=')
+    out.append('  nyeOfGrad (gradOf fun x => if x = 0 then g.1 else if x = 1 then g.2.1 else g.2.2)')
+    out.append('')
+    qst = [s for s in li.body if isinstance(s, ast.Assign) and 'dvect' in ast.unparse(s)]
+    pins.append(('solveNye', 'solve_nye: the q vectors, the dG call, the least-squares call, the nye_c call',
+                 [ast.unparse(s) for s in qst] + [ast.unparse(s) for s in li.body if isinstance(s, ast.Expr)]
+                 + [ast.unparse(la), ast.unparse(lb)]))
+
+    # ------------------------------------------------------------------ Strain.pyx: match_pq
+    f = func(st, 'match_pq')
+    stm = body(f)
+    pn, qn = f.args.args[0].arg, f.args.args[1].arg
+    inits = {s.targets[0].id: s.value for s in stm if isinstance(s, ast.Assign) and isinstance(s.targets[0], ast.Name)}
+    need('r1' in inits, 'match_pq: no initial r1')
+    loops = [s for s in stm if isinstance(s, ast.For)]
+    need(len(loops) == 4, f'match_pq: {len(loops)} top-level loops instead of 4')
+    l1, l2, l3, l4 = loops
+
+    def mag_of(loop, arr, store):
+        v = loop.target.id
+        a = [s for s in loop.body if isinstance(s, ast.Assign) and ast.unparse(s.targets[0]) == f'{store}[{v}]']
+        need(len(a) == 1 and isinstance(a[0].value, ast.Call) and ast.unparse(a[0].value.func) == 'sqrt',
+             f'match_pq: {store} is not sqrt(...)')
+
+        def atom(n, tr):
+            if isinstance(n, ast.Subscript):
+                ix = idx(n)
+                need(base(n) == arr and len(ix) == 2 and ast.unparse(ix[0]) == v, f'match_pq: operand {ast.unparse(n)}')
+                return f'v.{_XYZ[const_idx(ix[1])]}'
+            return None
+        return _Tr(atom).e(a[0].value.args[0]), a[0]
+    need(is_range(l1.iter, 'qnum') and is_range(l2.iter, 'pnum') and is_range(l3.iter, 'qnum') and is_range(l4.iter, 'qnum'),
+         'match_pq: loop ranges')
+    need(ast.unparse(inits.get('pnum')) == f'{pn}.shape[0]' and ast.unparse(inits.get('qnum')) == f'{qn}.shape[0]', 'match_pq: pnum/qnum')
+    eq, aq = mag_of(l1, qn, 'qmag')
+    ep, ap = mag_of(l2, pn, 'pmag')
+    need(any(ast.unparse(s) == f'qp_pairs[{l1.target.id}] = -1' for s in l1.body), 'match_pq: qp_pairs not initialised to -1')
+    out.append(f'/-- `match_pq`: the arguments of `sqrt` in `{ast.unparse(aq)[:40]}…` and `{ast.unparse(ap)[:40]}…` -/')
+    out.append(f'def qmagSq (v : V3 K) : K := {eq}')
+    out.append(f'def pmagSq (v : V3 K) : K := {ep}')
+    out.append(f'/-- `r1 = {ast.unparse(inits["r1"])}` -/')
+    out.append(f'def r1Init : K := {_Tr(lambda n, t: None).e(inits["r1"])}')
+    kf = l2.target.id
+    iff = only(l2.body, ast.If, 'match_pq r1')
+    need(len(iff.body) == 1 and ast.unparse(iff.body[0]) == f'r1 = pmag[{kf}]' and not iff.orelse, 'match_pq: r1 update')
+
+    def atom_r1(n, tr):
+        if isinstance(n, ast.Name) and n.id == 'r1':
+            return 'r'
+        if isinstance(n, ast.Subscript) and ast.unparse(n) == f'pmag[{kf}]':
+            return 'm'
+        return None
+    out.append(f'/-- `{ast.unparse(iff.test)}` → `r1 = pmag[k]` -/')
+    out.append(f'def shortestStep (r m : K) : K := if {_Tr(atom_r1).test(iff.test)} then m else r')
+    # the best-angle loop
+    jn = l3.target.id
+    need(len(l3.body) == 3, 'match_pq: pairing loop body is not (init, best loop, conflict block)')
+    s0, lk, ifc = l3.body
+    need(isinstance(s0, ast.Assign) and ast.unparse(s0.targets[0]) == 'cos_theta_min' and isinstance(s0.value, ast.Name),
+         'match_pq: cos_theta_min initialisation')
+    need(s0.value.id == f.args.args[2].arg, 'match_pq: cos_theta_min is not initialised with the cos_theta_max argument')
+    need(isinstance(lk, ast.For) and is_range(lk.iter, 'pnum') and len(lk.body) == 2, 'match_pq: best loop')
+    kn = lk.target.id
+    ac, ifb = lk.body
+    need(isinstance(ac, ast.Assign) and ast.unparse(ac.targets[0]) == 'cos_theta' and isinstance(ifb, ast.If) and not ifb.orelse,
+         'match_pq: best loop body')
+
+    def atom_cos(n, tr):
+        if isinstance(n, ast.Subscript):
+            u = ast.unparse(n)
+            if u == f'qmag[{jn}]':
+                return 'mag q'
+            if u == f'pmag[{kn}]':
+                return 'mag p'
+            ix = idx(n)
+            if base(n) == qn and len(ix) == 2 and ast.unparse(ix[0]) == jn:
+                return f'q.{_XYZ[const_idx(ix[1])]}'
+            if base(n) == pn and len(ix) == 2 and ast.unparse(ix[0]) == kn:
+                return f'p.{_XYZ[const_idx(ix[1])]}'
+            fail(f'match_pq: operand {u}')
+        return None
+    out.append(f'/-- `{ast.unparse(ac)}` -/')
+    out.append(f'def cosTheta (mag : V3 K → K) (q p : V3 K) : K := {_Tr(atom_cos).e(ac.value)}')
+    upd = {ast.unparse(s.targets[0]): s.value for s in ifb.body if isinstance(s, ast.Assign)}
+    need(set(upd) == {'cos_theta_min', f'qp_pairs[{jn}]'} and len(ifb.body) == 2, 'match_pq: what the best loop updates')
+    need(ast.unparse(upd[f'qp_pairs[{jn}]']) == kn, 'match_pq: qp_pairs[j] is not set to k')
+
+    def atom_best(n, tr):
+        if isinstance(n, ast.Name):
+            if n.id == 'cos_theta':
+                return 'cos_theta'
+            if n.id == 'cos_theta_min':
+                return 'st.1'
+        return None
+    out.append(f'/-- `if {ast.unparse(ifb.test)}:` `{"; ".join(ast.unparse(s) for s in ifb.body)}` (state: cos_theta_min, qp_pairs[j], k) -/')
+    out.append('def bestStep (mag : V3 K → K) (q : V3 K) (st : K × Option Nat × Nat) (p : V3 K) : K × Option Nat × Nat :=')
+    out.append('  let cos_theta := cosTheta mag q p')
+    out.append(f'  if {_Tr(atom_best).test(ifb.test)} then ({_Tr(atom_best).e(upd["cos_theta_min"])}, some st.2.2, st.2.2 + 1) '
+               'else (st.1, st.2.1, st.2.2 + 1)')
+    out.append('def bestP (mag : V3 K → K) (cosMax : K) (q : V3 K) (ps : List (V3 K)) : Option Nat :=')
+    out.append('  (ps.foldl (bestStep mag q) (cosMax, none, 0)).2.1')
+    # the conflict block
+    need(isinstance(ifc, ast.If) and not ifc.orelse and len(ifc.body) == 1 and isinstance(ifc.body[0], ast.For), 'match_pq: conflict block')
+    lc = ifc.body[0]
+    kc = lc.target.id
+    need(len(lc.body) == 1 and isinstance(lc.body[0], ast.If) and not lc.body[0].orelse, 'match_pq: conflict loop body')
+    ife = lc.body[0]
+    need(len(ife.body) == 3, 'match_pq: conflict branch is not (jrad, krad, decision)')
+    aj, ak, ifd = ife.body
+    need(isinstance(aj, ast.Assign) and isinstance(ak, ast.Assign) and isinstance(ifd, ast.If) and len(ifd.body) == 1
+         and len(ifd.orelse) == 1, 'match_pq: conflict branch shape')
+
+    def atom_rad(n, tr):
+        if isinstance(n, ast.Name) and n.id == 'r1':
+            return 'r1'
+        if isinstance(n, ast.Subscript):
+            u = ast.unparse(n)
+            if u == f'qmag[{jn}]':
+                return 'mag qj'
+            if u == f'qmag[{kc}]':
+                return 'mag e.1'
+            if u == f'qp_pairs[{jn}]':
+                return 'a'
+            if u == f'qp_pairs[{kc}]':
+                return 'b'
+        if isinstance(n, ast.Call) and ast.unparse(n.func) in ('fabs', 'abs') and len(n.args) == 1:
+            return f'absK {tr.e(n.args[0])}'
+        if isinstance(n, ast.Name) and n.id in (aj.targets[0].id, ak.targets[0].id):
+            return n.id
+        return None
+    tr = _Tr(atom_rad)
+
+    def reset(s):
+        u = ast.unparse(s)
+        if u == f'qp_pairs[{kc}] = -1':
+            return '(st.1 ++ [(e.1, none)], st.2)'
+        if u == f'qp_pairs[{jn}] = -1':
+            return '(st.1 ++ [e], none)'
+        fail(f'match_pq: conflict decision does {u}')
+    out.append(f'/-- `for {kc} in {ast.unparse(lc.iter)}: if {ast.unparse(ife.test)}:` `{ast.unparse(aj)}`; `{ast.unparse(ak)}`; '
+               f'`if {ast.unparse(ifd.test)}: {ast.unparse(ifd.body[0])} else: {ast.unparse(ifd.orelse[0])}` -/')
+    out.append('def dedupeStep (mag : V3 K → K) (r1 : K) (qj : V3 K)')
+    out.append('    (st : List (V3 K × Option Nat) × Option Nat) (e : V3 K × Option Nat) : List (V3 K × Option Nat) × Option Nat :=')
+    out.append('  match st.2, e.2 with')
+    out.append('  | some a, some b =>')
+    out.append(f'    if {tr.test(ife.test)} then')
+    out.append(f'      (let {aj.targets[0].id} := {tr.e(aj.value)}')
+    out.append(f'       let {ak.targets[0].id} := {tr.e(ak.value)}')
+    out.append(f'       if {tr.test(ifd.test)} then {reset(ifd.body[0])} else {reset(ifd.orelse[0])})')
+    out.append('    else (st.1 ++ [e], st.2)')
+    out.append('  | _, _ => (st.1 ++ [e], st.2)')
+    out.append('')
+    pins.append(('matchLoops', 'match_pq: guard and range of the conflict loop, the final copy loop, the value returned',
+                 [ast.unparse(ifc.test), ast.unparse(lc.iter)] + ast.unparse(l4).split('\n') + [ast.unparse(stm[-1])]))
+
+    # ------------------------------------------------------------------ Strain: theta_max setter, getters, clear, solve_G
+    cls = [n for n in st.body if isinstance(n, ast.ClassDef) and n.name == 'Strain'][0]
+    setter = [n for n in cls.body if isinstance(n, ast.FunctionDef) and n.name == 'theta_max'
+              and any(ast.unparse(d) == 'theta_max.setter' for d in n.decorator_list)]
+    need(len(setter) == 1, 'Strain.theta_max setter not found')
+    sb = body(setter[0])
+    need(len(sb) == 1 and isinstance(sb[0], ast.If) and not sb[0].orelse and len(sb[0].body) == 1
+         and ast.unparse(sb[0].body[0]) == 'self.__theta_max = value', 'theta_max setter: shape')
+    out.append(f'/-- the `theta_max` setter: `if {ast.unparse(sb[0].test)}:` -/')
+    out.append(f'def thetaAccept (value : K) : Bool := decide {_Tr(lambda n, t: "value" if isinstance(n, ast.Name) and n.id == "value" else None).test(sb[0].test)}')
+    out.append('')
+    rows = []
+    for prop in ('G', 'strain', 'invariant1', 'invariant2', 'invariant3', 'rotation', 'angularvelocity', 'nye'):
+        g = func(st, prop, 'Strain')
+        gb = body(g)
+        need(len(gb) == 2 and isinstance(gb[0], ast.If) and ast.unparse(gb[0].test) == f'self.__{prop} is None'
+             and ast.unparse(gb[1]) == f'return self.__{prop}' and len(gb[0].body) == 1 and not gb[0].orelse, f'getter {prop}: shape')
+        s = gb[0].body[0]
+        if isinstance(s, ast.Expr):
+            rows.append((prop, ast.unparse(s.value), ''))
+        else:
+            need(isinstance(s, ast.Assign) and ast.unparse(s.targets[0]) == f'self.__{prop}' and isinstance(s.value, ast.Call)
+                 and len(s.value.args) == 1, f'getter {prop}: statement')
+            rows.append((prop, ast.unparse(s.value.func), ast.unparse(s.value.args[0])))
+    out.append('/-- the property getters: (property, what fills it when nothing is cached, from which other property) -/')
+    out.append('def getters : List (String × String × String) :=\n  [' + ',\n   '.join(f'({_q(a)}, {_q(b)}, {_q(c)})' for a, b, c in rows) + ']')
+    cp = body(func(st, 'clear_properties', 'Strain'))
+    cl = []
+    for s in cp:
+        need(isinstance(s, ast.Assign) and ast.unparse(s.value) == 'None' and ast.unparse(s.targets[0]).startswith('self.__'),
+             f'clear_properties: {ast.unparse(s)}')
+        cl.append(ast.unparse(s.targets[0])[7:])
+    out.append('/-- `clear_properties`: the attributes reset to None -/')
+    out.append('def cleared : List String := [' + ', '.join(_q(c) for c in cl) + ']')
+    out.append('')
+    sg = body(func(st, 'solve_G', 'Strain'))
+    lg = only(sg, ast.For, 'solve_G')
+    pins.append(('solveG', 'solve_G: every statement before the loop over atoms, then the loop body',
+                 [ast.unparse(s) for s in sg if not isinstance(s, ast.For) and s is not sg[-1]] + ast.unparse(lg).split('\n')
+                 + [ast.unparse(sg[-1])]))
+    sp = body(func(st, 'set_p_vectors', 'Strain'))
+    pins.append(('setP', 'set_p_vectors: the broadcasting rule and the axes transformation', sum((ast.unparse(s).split('\n') for s in sp), [])))
+    ini = body(func(st, '__init__', 'Strain'))
+    pins.append(('strainInit', 'Strain.__init__: after the neighbour block', sum((ast.unparse(s).split('\n') for s in ini[2:]), [])))
+    bp = body(func(st, 'build_p_vectors', 'Strain'))
+    pins.append(('buildP', 'build_p_vectors: after the neighbour block', sum((ast.unparse(s).split('\n') for s in bp[1:]), [])))
+
+    # ------------------------------------------------------------------ the neighbour-source chains
+    def pick(fnode, lean, where):
+        chain = [s for s in body(fnode) if isinstance(s, ast.If) and ast.unparse(s.test) == 'neighbors is not None']
+        need(len(chain) == 1, f'{where}: neighbour block not found once')
+        systems = set()
+
+        def block(stmts, bound):
+            """Lean term of type Except NbrErr L for a statement list; `bound`: python name -> Lean variable holding its value"""
+            if not stmts:
+                need('neighbors' in bound, f'{where}: a branch ends without a list')
+                return f'.ok {bound["neighbors"]}'
+            s, rest = stmts[0], stmts[1:]
+            if isinstance(s, ast.Assert):
+                t = ast.unparse(s.test)
+                need(t == 'cutoff is None', f'{where}: assertion {t}')
+                return f'(match cutoff with | some _ => .error .assert | none => {block(rest, bound)})'
+            if isinstance(s, ast.Raise):
+                need(ast.unparse(s.exc).startswith('ValueError('), f'{where}: raises {ast.unparse(s.exc)[:40]}')
+                return '.error .value'
+            if isinstance(s, ast.Assign):
+                tg = ast.unparse(s.targets[-1])
+                need(tg in ('neighbors', 'self.__neighbors'), f'{where}: assigns {tg}')
+                v = s.value
+                if isinstance(v, ast.Name) and v.id == 'neighbors' and 'neighbors' in bound:
+                    src = bound['neighbors']
+                elif isinstance(v, ast.Call) and ast.unparse(v.func) == 'NeighborList':
+                    kw = {k.arg: ast.unparse(k.value) for k in v.keywords}
+                    need(set(kw) == {'system', 'cutoff'} and kw['cutoff'] == 'cutoff' and 'cutoff' in bound and not v.args,
+                         f'{where}: {ast.unparse(v)}')
+                    systems.add(kw['system'])
+                    src = bound['cutoff']
+                elif isinstance(v, ast.Attribute) and v.attr == 'neighbors' and 'attr' in bound:
+                    systems.add(ast.unparse(v.value))
+                    src = bound['attr']
+                else:
+                    fail(f'{where}: {ast.unparse(s)}')
+                b2 = dict(bound)
+                b2['neighbors'] = src
+                return block(rest, b2)
+            if isinstance(s, ast.If):
+                need(not rest, f'{where}: statements after the chain')
+                t = ast.unparse(s.test)
+                if t == 'neighbors is not None':
+                    var, nm = 'neighbors', 'nb'
+                elif t == 'cutoff is not None':
+                    var, nm = 'cutoff', 'cu'
+                elif isinstance(s.test, ast.Call) and ast.unparse(s.test.func) == 'hasattr' and ast.unparse(s.test.args[1]) == "'neighbors'":
+                    systems.add(ast.unparse(s.test.args[0]))
+                    var, nm = 'attr', 'av'
+                else:
+                    fail(f'{where}: test {t}')
+                b2 = dict(bound)
+                b2[var] = nm
+                src = {'neighbors': 'neighbors', 'cutoff': 'cutoff', 'attr': 'attr'}[var]
+                return f'(match {src} with | some {nm} => {block(s.body, b2)} | none => {block(s.orelse, {k: v for k, v in bound.items() if k != var})})'
+            fail(f'{where}: statement {ast.unparse(s)[:60]}')
+        term = block([chain[0]], {})
+        need(len(systems) == 1, f'{where}: the list is built / read from several systems: {sorted(systems)}')
+        out.append(f'/-- `{where}`: the neighbour block -/')
+        out.append(f'def pick_{lean} {{L : Type}} (neighbors cutoff attr : Option L) : Except NbrErr L :=\n  {term}')
+        out.append(f'def pickSystem_{lean} : String := {_q(sorted(systems)[0])}')
+        out.append('')
+
+    sv = _decython(cm.source('atomman/defect/slip_vector.pyx'), 'slip_vector.pyx')
+    nt = ast.parse(cm.source('atomman/defect/nye_tensor.py'))
+    ddf = ast.parse(cm.source('atomman/defect/differential_displacement.py'))
+    pick(func(sv, 'slip_vector'), 'slipVector', 'slip_vector')
+    pick(func(st, '__init__', 'Strain'), 'strainInit', 'Strain.__init__')
+    pick(func(st, 'build_p_vectors', 'Strain'), 'buildP', 'Strain.build_p_vectors')
+    pick(func(nt, 'nye_tensor'), 'nyeTensor', 'nye_tensor')
+    pick(func(ddf, 'differential_displacement'), 'ddFunction', 'differential_displacement')
+
+    # ------------------------------------------------------------------ slip_vector.pyx
+    f = func(sv, 'slip_vector_c')
+    stm = body(f)
+    li = [s for s in stm if isinstance(s, ast.For)][-1]
+    iname = li.target.id
+    fill = [s for s in li.body if isinstance(s, ast.For)]
+    need(len(fill) == 2, 'slip_vector_c: fill loop and accumulation loop')
+    bufs = {}
+    ni = {}
+    for s in ast.walk(fill[0]):
+        if isinstance(s, ast.Assign) and isinstance(s.targets[0], ast.Name):
+            ni[s.targets[0].id] = ast.unparse(s.value)
+        elif isinstance(s, ast.Assign):
+            tgt, val = s.targets[0], s.value
+            need(isinstance(val, ast.Subscript) and len(idx(val)) == 2, f'slip_vector_c: {ast.unparse(s)}')
+            who = ast.unparse(idx(val)[0])
+            bufs[base(tgt)] = (base(val), who)
+    nvar = fill[0].target.id
+    need(is_range(fill[0].iter, 'coord') and is_range(fill[1].iter, 'coord'), 'slip_vector_c: loops over coord')
+    coord = [s for s in li.body if isinstance(s, ast.Assign) and ast.unparse(s.targets[0]) == 'coord']
+    need(len(coord) == 1 and ast.unparse(coord[0].value) == f'nlist[{iname}, 0]', 'slip_vector_c: coord')
+    dv = {}
+    for s in li.body:
+        if isinstance(s, ast.Assign) and isinstance(s.value, ast.Call) and ast.unparse(s.value.func) == 'dvect_c':
+            args = [ast.unparse(a) for a in s.value.args]
+            need(len(args) == 6 and args[2:] == [f.args.args[2].arg] + [a.arg for a in f.args.args[4:7]],
+                 f'slip_vector_c: dvect_c called with {args[2:]}')
+            (pu, wu), (pv, wv) = bufs[args[0]], bufs[args[1]]
+            need(wu == iname and ni.get(wv) == f'nlist[{iname}, {nvar} + 1]', f'slip_vector_c: buffers of {ast.unparse(s)}')
+            dv[s.targets[0].id] = f'c.dv ({pu} i) ({pv} j)'
+    acc = [s for s in ast.walk(fill[1]) if isinstance(s, ast.AugAssign)]
+    need(len(acc) == 1 and isinstance(acc[0].op, (ast.Sub, ast.Add)), 'slip_vector_c: accumulation')
+    p0, p1 = f.args.args[0].arg, f.args.args[1].arg
+
+    def atom_sl(n, tr):
+        if isinstance(n, ast.Subscript) and base(n) in dv:
+            return dv[base(n)]
+        return None
+    out.append(f'/-- `slip_vector_c`: `{ast.unparse(acc[0])}` with `d_k = dvect_c(<buffers>, bvects, pbc_a, pbc_b, pbc_c)` -/')
+    out.append(f'def slipStep (c : Cell K) ({p0} {p1} : Nat → V3 K) (i : Nat) (acc : V3 K) (j : Nat) : V3 K :=')
+    out.append(f'  acc {"-" if isinstance(acc[0].op, ast.Sub) else "+"} {_Tr(atom_sl).e(acc[0].value)}')
+    f = func(sv, 'slip_vector')
+    names = {s.targets[0].id: ast.unparse(s.value) for s in body(f) if isinstance(s, ast.Assign) and isinstance(s.targets[0], ast.Name)}
+    ret = [s for s in body(f) if isinstance(s, ast.Return)]
+    need(len(ret) == 1 and isinstance(ret[0].value, ast.Call) and ast.unparse(ret[0].value.func) == 'slip_vector_c', 'slip_vector: return')
+    pins.append(('slipCall', 'slip_vector: the arguments handed to slip_vector_c, names resolved',
+                 [names.get(ast.unparse(a), ast.unparse(a)) for a in ret[0].value.args]))
+    out.append('')
+
+    # ------------------------------------------------------------------ displacement.py
+    dt = ast.parse(cm.source('atomman/core/displacement.py'))
+    f = func(dt, 'displacement')
+    need([a.arg for a in f.args.args] == ['system_0', 'system_1', 'box_reference'] and ast.unparse(f.args.defaults[0]) == "'final'",
+         'displacement: signature')
+    stm = body(f)
+    need(len(stm) == 3 and isinstance(stm[0], ast.If) and isinstance(stm[1], ast.If) and ast.unparse(stm[2]) == 'return disp', 'displacement: shape')
+    need(ast.unparse(stm[0].test) == 'system_0.natoms != system_1.natoms' and ast.unparse(stm[0].body[0]).startswith('raise ValueError('),
+         'displacement: atom-count test')
+    cellof = {'system_0': 'c0', 'system_1': 'c1'}
+
+    def dbranch(stmts):
+        need(len(stmts) == 1, 'displacement: branch body')
+        s = stmts[0]
+        if isinstance(s, ast.Raise):
+            need(ast.unparse(s.exc).startswith('ValueError('), 'displacement: raises')
+            return '.error .value'
+        if isinstance(s, ast.If):
+            t = s.test
+            if isinstance(t, ast.Compare) and isinstance(t.ops[0], ast.Eq) and ast.unparse(t.left) == 'box_reference':
+                c = {"'final'": '.final', "'initial'": '.initial'}.get(ast.unparse(t.comparators[0]))
+                need(c is not None, f'displacement: test {ast.unparse(t)}')
+            elif ast.unparse(t) == 'box_reference is None':
+                c = '.none'
+            else:
+                fail(f'displacement: test {ast.unparse(t)}')
+            return f'if ref = {c} then {dbranch(s.body)} else {dbranch(s.orelse)}'
+        need(isinstance(s, ast.Assign) and ast.unparse(s.targets[0]) == 'disp', f'displacement: {ast.unparse(s)}')
+        v = s.value
+        if isinstance(v, ast.Call) and ast.unparse(v.func) == 'dvect':
+            a = [ast.unparse(x) for x in v.args]
+            need(len(a) == 4 and a[:2] == ['system_0.atoms.pos', 'system_1.atoms.pos'] and a[2].endswith('.box') and a[3].endswith('.pbc'),
+                 f'displacement: {ast.unparse(v)}')
+            cb, cp = cellof[a[2][:-4]], cellof[a[3][:-4]]
+            return f'.ok (fun i => (Cell.mk {cb}.vects {cp}.px {cp}.py {cp}.pz).dv (pos0 i) (pos1 i))'
+        if isinstance(v, ast.BinOp) and isinstance(v.op, ast.Sub):
+            m = {'system_0.atoms.pos': 'pos0 i', 'system_1.atoms.pos': 'pos1 i'}
+            need(ast.unparse(v.left) in m and ast.unparse(v.right) in m, f'displacement: {ast.unparse(v)}')
+            return f'.ok (fun i => {m[ast.unparse(v.left)]} - {m[ast.unparse(v.right)]})'
+        fail(f'displacement: {ast.unparse(s)}')
+    out.append('/-- `displacement(system_0, system_1, box_reference)`: the refusals and the branch chain, in source order -/')
+    out.append('def displacementCall (n0 n1 : Nat) (c0 c1 : Cell K) (ref : BoxRef) (pos0 pos1 : Nat → V3 K) : Except NbrErr (Nat → V3 K) :=')
+    out.append(f'  if n0 ≠ n1 then .error .value else {dbranch([stm[1]])}')
+    out.append('')
+
+    # ------------------------------------------------------------------ DifferentialDisplacement.solve
+    ddc = ast.parse(cm.source('atomman/defect/DifferentialDisplacement.py'))
+    f = func(ddc, 'solve', 'DifferentialDisplacement')
+    stm = body(f)
+    lp = only(stm, ast.For, 'DifferentialDisplacement.solve')
+    iname = lp.target.id
+    dvs = {}
+    for s in lp.body:
+        if isinstance(s, ast.Assign) and isinstance(s.value, ast.Call) and ast.unparse(s.value.func) in ('system0.dvect', 'system1.dvect'):
+            a = [ast.unparse(x) for x in s.value.args]
+            need(a == [f'int({iname})', 'neighs'], f'solve: {ast.unparse(s)}')
+            k = ast.unparse(s.value.func)[6]
+            dvs[s.targets[0].id] = f'c{k}.dv (pos{k} i) (pos{k} j)'
+    dd = [s for s in lp.body if isinstance(s, ast.Assign) and ast.unparse(s.targets[0]) == 'ddvectors']
+    need(len(dd) == 1 and len(dvs) == 2, 'solve: ddvectors')
+    out.append(f'/-- `DifferentialDisplacement.solve`: `{ast.unparse(dd[0])}` -/')
+    out.append('def ddvector (c0 c1 : Cell K) (pos0 pos1 : Nat → V3 K) (i j : Nat) : V3 K :=')
+    out.append('  ' + _Tr(lambda n, t: dvs.get(n.id) if isinstance(n, ast.Name) else None).e(dd[0].value))
+    pre = stm[:stm.index(lp)]
+    pins.append(('ddSolve', 'DifferentialDisplacement.solve: argument handling before the loop; neighbours of an atom; the skip; what is stored',
+                 sum((ast.unparse(s).split('\n') for s in pre if not (isinstance(s, ast.Assign) and ast.unparse(s.value) == '[]')), [])
+                 + [ast.unparse(lp.iter)] + [ast.unparse(s) for s in lp.body[:2]]
+                 + [ast.unparse(s) for s in stm[stm.index(lp) + 1:] if 'ddvectors' in ast.unparse(s)]))
+    di = body(func(ddc, '__init__', 'DifferentialDisplacement'))
+    pins.append(('ddInit', 'DifferentialDisplacement.__init__', sum((ast.unparse(s).split('\n') for s in di), [])))
+    rs = [n for n in [c for c in ddc.body if isinstance(c, ast.ClassDef)][0].body if isinstance(n, ast.FunctionDef) and n.name == 'reference'
+          and any(ast.unparse(d) == 'reference.setter' for d in n.decorator_list)]
+    need(len(rs) == 1, 'reference setter')
+    pins.append(('ddReference', 'the reference setter', [ast.unparse(s) for s in body(rs[0])]))
+    out.append('')
+
+    # ------------------------------------------------------------------ nye_tensor.py: Levi-Civita table and contraction
+    f = func(nt, 'nye_tensor')
+    stm = body(f)
+    epsd = [s for s in stm if isinstance(s, ast.Assign) and ast.unparse(s.targets[0]) == 'eps']
+    need(len(epsd) == 1 and ast.unparse(epsd[0].value.func) == 'np.array', 'nye_tensor: eps')
+    tab = ast.literal_eval(epsd[0].value.args[0])
+    need(len(tab) == 3 and all(len(r) == 3 and all(len(c) == 3 and all(isinstance(x, int) for x in c) for c in r) for r in tab), 'eps shape')
+    out.append('/-- `nye_tensor`: the table `eps` -/')
+    out.append('def eps (i j m : Nat) : Int := (([' + ', '.join('[' + ', '.join('[' + ', '.join(str(x) for x in c) + ']' for c in r) + ']' for r in tab)
+               + '] : List (List (List Int))).getD i []).getD j [] |>.getD m 0')
+    lp2 = [s for s in stm if isinstance(s, ast.For)][-1]
+    ein = [s for s in lp2.body if isinstance(s, ast.Assign) and 'einsum' in ast.unparse(s)]
+    need(len(ein) == 1, 'nye_tensor: einsum')
+    v = ein[0].value
+    need(isinstance(v, ast.BinOp) and isinstance(v.op, ast.Mult) and ast.unparse(v.left) == '-1' and isinstance(v.right, ast.Call)
+         and ast.unparse(v.right.func) == 'np.einsum' and [ast.unparse(a) for a in v.right.args[1:]] == ['eps', 'gradG'], 'nye_tensor: contraction')
+    spec = ast.literal_eval(v.right.args[0])
+    ins, outs = spec.split('->')
+    ia, ib = ins.split(',')
+    need(len(ia) == 3 and len(ib) == 3 and len(outs) == 2 and set(outs) <= set(ia + ib), f'einsum {spec}')
+    summed = sorted(set(ia + ib) - set(outs))
+
+    def ein_entry(r, c):
+        env = {outs[0]: r, outs[1]: c}
+        terms = []
+        import itertools
+        for vals in itertools.product(range(3), repeat=len(summed)):
+            e2 = dict(env)
+            e2.update(dict(zip(summed, vals)))
+            ev = tab[e2[ia[0]]][e2[ia[1]]][e2[ia[2]]]
+            terms.append(f'((eps {e2[ia[0]]} {e2[ia[1]]} {e2[ia[2]]} : Int) : K) * g {e2[ib[0]]} {e2[ib[1]]} {e2[ib[2]]}')
+        return '-(' + ' + '.join(terms) + ')'
+    out.append(f'/-- `{ast.unparse(ein[0])}`, the sum written out -/')
+    out.append('def nyeEinsum (g : Nat → Nat → Nat → K) : M3 K :=\n  matOf fun j k => match j, k with\n' + '\n'.join(
+        f'    | {r}, {c} => {ein_entry(r, c)}' for r in range(3) for c in range(3)) + '\n    | _, _ => 0')
+    gl = [s for s in ast.walk(lp2) if isinstance(s, ast.Assign) and ast.unparse(s.targets[0]).startswith('gradG[')]
+    pins.append(('nyeTensorLoop', 'nye_tensor: pairing decisions, conflict loop, G, strain measures, gradG',
+                 sum((ast.unparse(s).split('\n') for s in stm if isinstance(s, ast.For)), [])))
+    pins.append(('nyeTensorPre', 'nye_tensor: p-vector broadcasting, axes, cos', sum((ast.unparse(s).split('\n') for s in stm[1:stm.index(epsd[0])]), [])))
+    need(len(gl) == 1, 'nye_tensor: gradG')
+    out.append('')
+
+    # ------------------------------------------------------------------ disregistry.py, differential_displacement.py: statement pins
+    dr = ast.parse(cm.source('atomman/defect/disregistry.py'))
+    f = func(dr, 'disregistry')
+    pins.append(('disregistry', 'disregistry: every statement (numpy calls: unique, isclose, interp, union1d, mean)',
+                 [ast.unparse(f.args)] + sum((ast.unparse(s).split('\n') for s in body(f)), [])))
+    f = func(ddf, 'differential_displacement')
+    keep = [ast.unparse(s) for s in ast.walk(f) if isinstance(s, ast.Assign)
+            and ast.unparse(s.targets[0]) in ('T', 'dvectors_0', 'dvectors_1', 'dd_vectors')]
+    pins.append(('ddFunctionBody', 'differential_displacement: the plotting frame T, the two separations in that frame, their difference', keep))
+
+    for name, doc, lines in pins:
+        out.append(f'/-- pin — {doc} -/')
+        lines = sum((x.split('\n') for x in lines), [])
+        out.append(f'def pin_{name} : List String :=\n  [' + ',\n   '.join(_q(x) for x in lines) + ']')
+        out.append('')
+    out.append('end')
+    out.append('end Atomman.C17.Gen')
+    return {'DeformSource': '\n'.join(out) + '\n'}
 
 
 MANIFEST = {
